@@ -57,6 +57,7 @@ class Fn:
     cut_before: str = None        # fragment extraction: keep the body up to (excluding) the statement starting with this text,
     cut_tail: str = ""            # ... and continue with this (opaque) tail expression; the dropped part is NOT verified
     pre_rewrites: list = field(default_factory=list)   # site rewrites applied BEFORE the generic rules (to bring a construct into a rule's reach)
+    cut_inside: bool = False      # cut_from names a block header `.. {`: the fragment is the INSIDE of that block
     cut_from: str = None          # fragment extraction: drop the body text before the statement starting with this text; the fragment
     sig: str = ""                 # ... becomes the body of a function with this synthetic signature (the dropped prefix's live variables
                                   # become parameters).  The dropped part is NOT verified.
@@ -355,7 +356,7 @@ def generate(unit: Unit, root, rules_mod):
             if not it.cut_from or orig.count(it.cut_from) != 1:
                 raise AnchorLost(f"{where}: cut_from anchor {it.cut_from!r} occurs {orig.count(it.cut_from or '')}x")
             mo = mask(orig)
-            pos = orig.index(it.cut_from) + (len(it.cut_from) if it.cut_from.rstrip().endswith("{") else 0)
+            pos = orig.index(it.cut_from) + (len(it.cut_from) if it.cut_inside else 0)
             depth, k = 0, pos
             while k > 0:
                 k -= 1
@@ -392,7 +393,7 @@ def generate(unit: Unit, root, rules_mod):
             if k != 1:
                 raise AnchorLost(f"{where}: cut_from anchor {it.cut_from!r} occurs {k}x")
             cut = orig_kept.index(it.cut_from)
-            if it.cut_from.rstrip().endswith("{"):
+            if it.cut_inside:
                 cut = cut + len(it.cut_from)          # anchor is a block header: the fragment is the inside of that block
             else:
                 cut = orig_kept.rfind("\n", 0, cut) + 1
